@@ -101,7 +101,13 @@ OnlyMatch == Len(hist) = 1
 NoWiden == \A j \in 1..Len(hist) : hist[j].op # "widen"
 Complete == R.path # << >> /\ R.idx = M.n - 1
 C01 == (OnlyMatch /\ ~cf.ne /\ cf.W = NoW) => Optimal(I, cf, M.n, R)
-C02 == Done => PathScoresMatchModel(I, cf, R.path)
+\* C02.  A fresh match reports exactly the model score of its path.  After expansion calls the same holds except at an
+\* entry whose predecessor was replaced in place in a later call (finding F-stale: the implementation, and therefore
+\* this specification, does not re-score the successors of a replaced entry when the re-scored candidate is not better
+\* or the replaced entry is postponed again); C02strict is the property as stated and is violated by such histories.
+C02 == /\ (OnlyMatch => PathScoresMatchModel(I, cf, R.path))
+       /\ (Done => PathScoresMatchModelModuloStale(I, cf, M.rnd, R.path))
+C02strict == Done => PathScoresMatchModel(I, cf, R.path)
 C03 == Done => /\ Aligned(R.path, R.idx, Complete)
                /\ (R.path = << >> => R.idx = 0)
 C03b == (OnlyMatch /\ ~cf.ne /\ cf.W = NoW) => (R.path = << >> <=> Reach(I, cf, 0) = {})
